@@ -75,14 +75,16 @@ class Compute:
         # Recurse if necessary
         if depth > 0:
             depth -= 1
-            for _, payload in fiber:
+            for payload in fiber.getPayloads():
                 swaps += Compute._numSwapsTree(payload, depth, radix, next_latency)
             return swaps
 
-        # Otherwise merge
+        # Otherwise merge (the lists are the stored coordinates,
+        # whatever the payloads are)
         coords = []
-        for _, payload in fiber:
-            coords.append(sorted([-c for c in payload.getCoords()]))
+        for payload in fiber.getPayloads():
+            if len(payload.getCoords()) > 0:
+                coords.append(sorted([-c for c in payload.getCoords()]))
 
         while len(coords) > 1:
             new = []
